@@ -676,8 +676,48 @@ def check_build_A(ctx: Ctx, rules: Dict[str, str]):
 # =============================================================================================
 # _get_all_valid_alignments
 # =============================================================================================
+_NARROW_INTS = ("int8", "uint8", "bool_", "bool8", "bool", "byte", "ubyte", "boolean")
+_INDEX_CARRIERS = (CAND, "iter_tuples", "extend_right_alignments", "build_A")
+
+
+def check_index_width(ctx: Ctx, rule: str):
+    """positions of units inside an annotator's array travel as integers from the odometer through the candidate buffer and its growth to
+    build_A and the decoder.  The pinned tree uses 16-bit integers (at most 32767 units per annotator: a stated assumption); an 8-bit or boolean
+    type anywhere on that path - dtype, astype, or the compiled signature - wraps at 128 / 256 and the candidates name other units than the
+    ones they were costed with (recognised shape, wrong slot)."""
+    if ("index-width", rule) in ctx.notes.setdefault("records_checked", set()):
+        return
+    ctx.notes["records_checked"].add(("index-width", rule))
+    M = ctx.model
+    seen = 0
+    for qn in _INDEX_CARRIERS:
+        f = M.functions.get(qn)
+        if f is None:
+            continue
+        ctx.functions_analysed.add(f.qualname)
+        nodes = list(getattr(f.node, "decorator_list", [])) + list(f.node.body)
+        for top in nodes:
+            for x in ast.walk(top):
+                name = None
+                if isinstance(x, ast.Attribute) and isinstance(x.value, (ast.Name, ast.Attribute)) and norm(x.value).split(".")[0] in ("np", "numpy", "nb", "numba"):
+                    name = x.attr
+                elif isinstance(x, ast.Constant) and isinstance(x.value, str) and x.value in _NARROW_INTS + ("int16", "int32", "int64", "uint16"):
+                    name = x.value
+                if name is None or not (name.startswith(("int", "uint", "bool", "byte", "ubyte")) and name not in ("intp",)):
+                    continue
+                if name in ("int", "integer"):
+                    continue
+                seen += 1
+                if name in _NARROW_INTS:
+                    ctx.bad(rule, f, x, f"{qn} carries unit positions in `{norm(x)}`: positions from 128 (256) on wrap around, so a candidate names other units than the ones its "
+                            f"cost was computed from (the pinned 16-bit type holds 32767 units per annotator)", key=f"index-width:{qn}")
+    ctx.check(seen >= 4, rule, None, None, f"{seen} integer types on the path of the unit positions (odometer, candidate buffer, growth, build_A), none narrower than 16 bits",
+              bad_detail=f"only {seen} integer types found on the path of the unit positions (anchor vanished)", construct="index width", key="index-width")
+
+
 def check_candidates(ctx: Ctx, rules: Dict[str, str]):
     f = ctx.fn(CAND, next(iter(rules.values())))
+    check_index_width(ctx, rules.get("index-width") or rules.get("append") or rules.get("source") or next(iter(rules.values())))
     check_entry(ctx, rules.get("entry") or next(iter(rules.values())), "valid_alignments")
     k = K(ctx, rules, f)
     ps = f.params
